@@ -210,6 +210,17 @@ class Universe:
             p, d = self._op(rng, inf, "bytes")
             patches.extend(p)
             descr.append(d)
+        if profile == "summary" and "metadata_csum" in inf.features and \
+                any(d[0] == "sb" and d[1] != "s_checksum" for d in descr) and \
+                not any(d[0] == "sb" and d[1] == "s_checksum" for d in descr):
+            # keep the damage confined to the count: recompute the superblock checksum
+            from .pyext4 import crc as _crc
+            sbraw = bytearray(inf.read(1024, 1024))
+            for off, b in patches:
+                if 1024 <= off < 2048:
+                    sbraw[off - 1024: off - 1024 + len(b)] = b[:2048 - off]
+            c = _crc.crc32c(0xFFFFFFFF, bytes(sbraw[:1020]))
+            patches.append((1024 + 1020, struct.pack("<I", c)))
         cls = "+".join(sorted(set("%s.%s" % (d[0], d[1]) for d in descr)))
         return Case(cid, name, patches, descr, cls)
 
